@@ -52,6 +52,9 @@ def write_fasta(world, path, seqs=None, gz=False):
         for c in world["chroms"]:
             f.write(">%s\n" % c)
             s = seqs[c]
+            for mc, ms, me in world.get("softmask", []):      # soft-masked (lower-case) stretches, 1-based closed; the reads stay upper-case
+                if mc == c:
+                    s = s[:ms - 1] + s[ms - 1:me].lower() + s[me:]
             for i in range(0, len(s), 60):
                 f.write(s[i:i + 60] + "\n")
     return seqs
